@@ -157,6 +157,25 @@ def check_index_protocol(chk, prog):
             if va and all(a[0] == "call" and a[1].endswith("::version") for a in va):
                 stores.append(i)
     path = RebuildModel._path_to_ret(f, [c.target for c in merges if c.target is not None], set(stores), set())
+    # no path records a version without first deciding whether the index has to be cleared: every store to updated_to (not only the
+    # ones that follow a merge) is dominated by the major-version comparison
+    all_stores = [i for i, j, s2 in f.assigns() if s2[1][0] == 1 and [e for e in s2[1][1] if not isinstance(e, str)][-1:] and
+                  [e for e in s2[1][1] if not isinstance(e, str)][-1][2] == "updated_to"]
+    cmps = []
+    for c in f.calls:
+        if c.p.endswith(("PartialEq::ne", "PartialEq>::ne", "PartialEq::eq", "PartialEq>::eq")) and len(c.args) == 2:
+            pa = f.origins(c.args[0]) | f.origins(c.args[1])
+            if any(a[-1] and a[-1][-1] == "major" for a in pa if a[0] in ("call", "param", "local")):
+                cmps.append(c.bb)
+    for i, j, s2 in f.assigns():
+        if s2[2][0] == "bin" and s2[2][1] in ("Ne", "Eq"):
+            pa = f.origins(s2[2][2]) | f.origins(s2[2][3])
+            if any(a[-1] and a[-1][-1] == "major" for a in pa if a[0] in ("call", "param", "local")):
+                cmps.append(i)
+    ok_dom = bool(all_stores) and bool(cmps) and all(any(f.dominates(cb, sb) for cb in cmps) for sb in all_stores)
+    chk.judge(ok_dom, R, "hash_index::Index::refresh:version-recorded-after-major-test", "the index never records a table version without having compared major versions first",
+              "Index::refresh can record the table's current version on a path that never compared major versions (and so never cleared the index): after the table was cleared or "
+              "compacted the index keeps entries pointing at row ids of the previous generation and is considered up to date", f.loc)
     chk.judge(bool(stores) and bool(merges) and path is None, R, "hash_index::Index::refresh:updated_to",
               "updated_to := table.version() after every merge path", "a path merges rows into the index without recording the version it is now up to date with", f.loc)
     # the version stored is the one read at entry (before the scan)
